@@ -162,6 +162,7 @@ func init() {
 		"github.com/thoas/go-funk.Contains": funkContains,
 		"github.com/thoas/go-funk.Filter":   funkFilter,
 		"sort.Slice":                        sortSlice,
+		"sort.SliceStable":                  sortSlice, // adjacent swaps on strict less only: the network is stable
 		"math/rand.NewSource": func(m *Machine, args []Value, g *Term, site ssa.Instruction) Value {
 			return &IfaceV{}
 		},
